@@ -176,6 +176,11 @@ def compare_decode(c):
         return True, 'not-run'
     if i[0] == 'err' or m.startswith('err'):
         same = (i[0] == 'err' and m == 'err %d' % i[1])
+        if not same and i[0] == 'err' and i[1] == 6 and m == 'err 1':
+            # running off the end of the data section: the model holds the data bits only (BitReadError), the
+            # implementation reads on into the following octets and then reports the overrun of the declared
+            # section length (PyBufrKitError): the same refusal, BitReadError being a PyBufrKitError
+            same = True
         return same, 'error class impl=%r model=%r' % (i, m[:40])
     _, vals_s, labels_s, links_s, used = m.split(' ')
     mvals = B.parse_model_subsets(vals_s)
